@@ -80,6 +80,35 @@ def idx_attr(sl, aliases):
     return None
 
 
+def fancy_index(sl, fn, aliases):
+    """If the subscript is an index *array* (list literal, np.array/np.asarray of one, or a local
+    bound once to one) whose elements are index attributes: the list of attributes; else None.
+    A tuple subscript is multi-dimensional indexing, not an index array."""
+    def attrs_of(e, depth=0):
+        if isinstance(e, ast.Call) and pf.call_name(e) in ("np.array", "np.asarray", "numpy.array", "list") \
+                and len(e.args) >= 1:
+            return attrs_of(e.args[0], depth)
+        if isinstance(e, ast.List) or (depth and isinstance(e, ast.Tuple)):
+            out = []
+            for x in e.elts:
+                a = idx_attr(x, aliases)
+                if a is None:
+                    return None
+                out.append(a)
+            return out
+        return None
+
+    r = attrs_of(sl)
+    if r is not None:
+        return r
+    if isinstance(sl, ast.Name):
+        defs = [n for n in pf.walk_no_nested(fn) if isinstance(n, ast.Assign)
+                and any(isinstance(t, ast.Name) and t.id == sl.id for t in n.targets)]
+        if len(defs) == 1:
+            return attrs_of(defs[0].value, depth=1)
+    return None
+
+
 def array_subscripts(fn, arr, aliases):
     """all Subscript nodes arr[<idx>] in fn -> list of (node, attr|None)"""
     out = []
@@ -127,6 +156,22 @@ def rule_maps_structure(chk, prog):
             while st is not None and not isinstance(st, ast.stmt):
                 st = pf.parent(st)
             inst = "%s.fill_deriv_ %s" % (cname, pf.src(st)[:70])
+            is_store = (isinstance(st, ast.AugAssign) and st.target is node) or (
+                isinstance(st, ast.Assign) and any(t is node for t in st.targets))
+            fancy = fancy_index(node.slice, der, al_d) if attr is None else None
+            if is_store and fancy is not None:
+                nstores += 1
+                written.update(fancy)
+                if len(fancy) <= 1:
+                    if isinstance(st, ast.AugAssign) and isinstance(st.op, (ast.Add, ast.Sub)):
+                        chk.ok("accumulate", inst)
+                        continue
+                chk.violation("accumulate", TD, cname + ".fill_deriv_", pf.src(st), st.lineno,
+                              "store through the index array [%s]: numpy's fancy-indexed (augmented) assignment is "
+                              "unbuffered, so rows whose indices coincide receive only the last contribution; the "
+                              "indices are constructor arguments and not provably distinct (use one += per index or "
+                              "np.add.at)" % ", ".join("self." + a for a in fancy), instance=inst)
+                continue
             if isinstance(st, ast.AugAssign) and st.target is node:
                 nstores += 1
                 if isinstance(st.op, (ast.Add, ast.Sub)):
@@ -236,6 +281,9 @@ def clamp_signature(fn, x, aliases, const_of=None):
                 v = _lit(e.args[3 - i])
                 if v is not None:
                     return attr, consts + ([v] if v != 0 else [])
+                # replacement by a non-literal: keep the flow, record the replacement symbolically so
+                # that the other routine has to do the same
+                return attr, consts + [bound(e.args[3 - i])]
             return None
         if isinstance(e, ast.Call) and pf.call_name(e) in CLAMP_FUNCS and not e.keywords:
             kind = CLAMP_FUNCS[pf.call_name(e)]
@@ -955,6 +1003,83 @@ def rule_sl_transpose(chk, prog):
                     chk.count("sl-transpose not-comparable")
 
 
+# ----------------------------------------------------------------------------
+# rule: mask symmetry between value, forward-mode and reverse-mode list routines
+# ----------------------------------------------------------------------------
+LIST_ROUTINES = (
+    ("value", "get_normalized_feature_vector", ["X"]),
+    ("forward", "get_derivative_of_normed_features", ["X", "DX"]),
+    ("reverse", "get_derivative_wrt_unnormed_features", ["X", "G"]),
+)
+
+
+def live_output_masks(prog, mod, cls, fn, roles, assume):
+    """masks under which the routine overwrites its returned array with a constant:
+    -> (live {mask key: text}, dead [text], undecided [text])"""
+    ev = method_evaluator(prog, mod, cls, fn, [mono.ArrayIn(r) for r in roles], assume)
+    ret = ev.run_function(fn)
+    if not isinstance(ret, mono.Buf):
+        raise core.AnalysisError("%s.%s: the returned array is not a buffer allocated in the routine (%r)" % (
+            cls.name, fn.name, ret))
+    live, dead, und = {}, [], []
+    for s in ev.stores:
+        if s.target is not ret or not s.masks:
+            continue
+        const = isinstance(s.value, Poly) and s.value.as_const() is not None
+        for m in s.masks:
+            if not isinstance(m, mono.Mask):
+                und.append(pf.src(s.node)[:80])
+            elif m.dead():
+                dead.append("%s  [%r is never true]" % (pf.src(s.node)[:60], m))
+            elif not const or s.op != "=":
+                und.append(pf.src(s.node)[:80])
+            else:
+                live[m.key] = repr(m)
+    return live, dead, und
+
+
+def rule_mask_symmetry(chk, prog):
+    mod = prog.module(FN)
+    cls = mod.cls("FeatNormalizerList")
+    ms = pf.methods(cls)
+    for _, nm, _ in LIST_ROUTINES:
+        if nm not in ms:
+            raise core.AnalysisError("FeatNormalizerList.%s vanished" % nm)
+    modes = slmode_literals([ms["_get_rho_and_inh"], ms["_get_drho_and_dinh"], ms[LIST_ROUTINES[2][1]]])
+    noted = set()
+    for mode in modes + [mono.ELSE]:
+        mname = "<else>" if mode is mono.ELSE else mode
+        res = {}
+        for tag, nm, roles in LIST_ROUTINES:
+            live, dead, und = live_output_masks(prog, mod, cls, ms[nm], roles, {"self.slmode": mode})
+            if und:
+                raise core.AnalysisError("FeatNormalizerList.%s: masked store outside the recognised shapes: %s" % (nm, und[0]))
+            for d in dead:
+                if (nm, d) not in noted:
+                    noted.add((nm, d))
+                    chk.note("mask-sym", "%s:%s" % (FN, nm), "dead mask (not counted): %s" % d)
+            res[tag] = live
+        ref = res["value"]
+        for tag, nm, _ in LIST_ROUTINES[1:]:
+            inst = "slmode=%s %s masks %s vs value routine %s" % (
+                mname, nm, sorted(res[tag].values()) or "none", sorted(ref.values()) or "none")
+            if set(res[tag]) == set(ref):
+                chk.ok("mask-sym", inst, nontrivial=bool(ref) or bool(res[tag]))
+            else:
+                extra = [res[tag][k] for k in res[tag] if k not in ref]
+                missing = [ref[k] for k in ref if k not in res[tag]]
+                other = "forward" if tag == "reverse" else "reverse"
+                chk.violation("mask-sym", FN, "FeatNormalizerList." + nm, "masked zero under %s" % (
+                    "; ".join(extra + missing)), ms[nm].lineno,
+                    "slmode=%s: %s-mode routine %s zeroes its output where %s, but the value routine "
+                    "get_normalized_feature_vector masks %s and the %s-mode routine masks %s: the derivative is "
+                    "zeroed where the value still depends on the features, and forward and reverse mode are no "
+                    "longer transposes at those points" % (
+                        mname, tag, nm, "; ".join(extra) or "nothing (missing: %s)" % "; ".join(missing),
+                        sorted(ref.values()) or "nothing", other, sorted(res[other].values()) or "nothing"),
+                    instance="slmode=%s %s" % (mname, nm))
+
+
 def analyse(chk):
     prog = pf.Program(chk.tree, [TD, FN])
     chk.rule("accumulate", "maps: every store to dfdx is += / -=; normalisers: dfdx '=', dfdrho/dfdinh and the "
@@ -968,6 +1093,8 @@ def analyse(chk):
                           "(canonical monomial forms)")
     chk.rule("sl-transpose", "per slmode: d(rho, inh)/dX[k] in _get_drho_and_dinh == coefficients routed back to "
                              "column k in get_derivative_wrt_unnormed_features")
+    chk.rule("mask-sym", "value, forward-mode and reverse-mode list routines overwrite their output under the same "
+                         "live masks (a mask taken from an already clamped quantity is dead)")
     chk.rule("list-iter", "FeatureList pairs row i of y / dfdy with feat_list[i] and passes dfdx / x whole")
     chk.guard(rule_maps_structure, prog)
     chk.guard(rule_clamp, prog)
@@ -975,6 +1102,7 @@ def analyse(chk):
     chk.guard(rule_list_iter, prog)
     chk.guard(rule_normalizers, prog)
     chk.guard(rule_sl_transpose, prog)
+    chk.guard(rule_mask_symmetry, prog)
     try:
         chk.count("map classes", len(registry_classes(prog.module(TD))))
     except core.AnalysisError:
@@ -986,6 +1114,7 @@ def analyse(chk):
     chk.floor("clamp", 28, "21 classes (7 clamp an input) + normaliser list carriers")
     chk.floor("transpose", 16, "4 normaliser classes x (dx, drho, dinh, fill_fwd factor), all comparable today")
     chk.floor("sl-transpose", 18, "npa 6 + nst 4 + np 4 + else 4 coefficient pairs, all comparable today")
+    chk.floor("mask-sym", 8, "4 slmode branches x (forward, reverse) against the value routine")
     chk.floor("list-iter", 3, "__call__, fill_vals_, fill_derivs_")
     chk.assumptions += [
         "numeric literals are dimensionless; clamp literals, literal 0 and additive regularisers <= 1e-6 are unit-polymorphic",
@@ -1049,6 +1178,18 @@ def mutants(tree):
         M("reverse-mode ns coefficient differs from forward mode below the tests' tolerance", FN,
           "df_dX0T[:, 0] -= dfdinh * 8.0 / 3 * inh_term / rho_term",
           "df_dX0T[:, 0] -= dfdinh * 8.0000001 / 3 * inh_term / rho_term", expect="sl-transpose"),
+        M("reverse pass takes its low-density mask from the raw density (mask becomes live)", FN,
+          "        rho_term, inh_term = self._get_rho_and_inh(X0T)\n        dfdrho = np.zeros_like(rho_term)\n        dfdinh = np.zeros_like(inh_term)\n        cond = rho_term < self.cutoff\n        rho_term[cond] = self.cutoff\n",
+          "        cond = X0T[:, 0] < self.cutoff\n        rho_term, inh_term = self._get_rho_and_inh(X0T)\n        dfdrho = np.zeros_like(rho_term)\n        dfdinh = np.zeros_like(inh_term)\n",
+          expect="mask-sym"),
+        M("forward pass alone zeroes sub-cutoff points", FN,
+          "                DX0TN[i] = DX0T[i]\n        return DX0TN",
+          "                DX0TN[i] = DX0T[i]\n        DX0TN[:, X0T[0] < self.cutoff] = 0.0\n        return DX0TN",
+          expect="mask-sym"),
+        M("WMap derivative vectorised with a fancy-indexed -= (tested only with distinct indices)", TD,
+          "        dfdx[i] -= dfdy * (\n            (gammai**2 * np.sqrt(gammaj / (1 + gammaj * x[j])) * x[k])\n            / (1 + gammai * x[i]) ** 2\n        )\n",
+          "        dfdx[[i, j]] -= dfdy * (\n            (gammai**2 * np.sqrt(gammaj / (1 + gammaj * x[j])) * x[k])\n            / (1 + gammai * x[i]) ** 2\n        ) * np.array([1.0, 0.0])[:, None]\n",
+          expect="accumulate"),
         M("fill_vals_ writes every map into row 0", TD, "self.feat_list[i].fill_feat_(tdesc[i], xdesc)",
           "self.feat_list[i].fill_feat_(tdesc[0], xdesc)", count=2, expect="list-iter"),
     ]
